@@ -225,3 +225,69 @@ Proof.
   - rewrite q_matvec_length. exact HAm.
   - rewrite q_col_length. exact HAm.
 Qed.
+
+(* ---- identity, products, linearity of A^T y in y ---- *)
+Lemma q_vsub_map (f g : nat -> Qc) (s : list nat) : qvsub (map f s) (map g s) = map (fun i => f i - g i) s.
+Proof. induction s as [|a s IH]; [reflexivity|]. cbn [map qvsub vsub]. f_equal. exact IH. Qed.
+
+Lemma q_vadd_map (f g : nat -> Qc) (s : list nat) : qvadd (map f s) (map g s) = map (fun i => f i + g i) s.
+Proof. induction s as [|a s IH]; [reflexivity|]. cbn [map qvadd vadd]. f_equal. exact IH. Qed.
+
+Lemma q_mattvec_vsub n A u v : wf_mat n A -> length u = length v ->
+  qmattvec n A (qvsub u v) = qvsub (qmattvec n A u) (qmattvec n A v).
+Proof.
+  intros HA H. rewrite !(q_mattvec_as_cols n A _ HA). rewrite q_vsub_map. apply map_ext. intros i.
+  apply q_dot_vsub_r. exact H.
+Qed.
+
+Lemma q_mattvec_vadd n A u v : wf_mat n A -> length u = length v ->
+  qmattvec n A (qvadd u v) = qvadd (qmattvec n A u) (qmattvec n A v).
+Proof.
+  intros HA H. rewrite !(q_mattvec_as_cols n A _ HA). rewrite q_vadd_map. apply map_ext. intros i.
+  apply q_dot_vadd_r. exact H.
+Qed.
+
+Lemma q_matvec_ident n v : length v = n -> qmatvec (qident n) v = v.
+Proof.
+  intros H. unfold qident. change (qmatvec (map ?f ?s) v) with (map (fun row => qdot row v) (map f s)).
+  rewrite map_map. transitivity (map (fun i => nth i v 0) (seq 0 n)).
+  - apply map_ext_in. intros i Hi. apply in_seq in Hi.
+    apply (dot_unit_vec Qc 0 1 Qcplus Qcmult Qcminus Qcopp Qcrt); lia.
+  - rewrite <- H. symmetry. apply list_as_nth_map.
+Qed.
+
+Lemma q_matvec_matmul k M N v : wf_mat k N -> length v = k ->
+  qmatvec (qmatmul k M N) v = qmatvec M (qmatvec N v).
+Proof.
+  intros HN Hv. unfold qmatmul, matmul.
+  change (qmatvec (map ?f M) v) with (map (fun row => qdot row v) (map f M)).
+  rewrite map_map. change (qmatvec M (qmatvec N v)) with (map (fun row => qdot row (qmatvec N v)) M).
+  apply map_ext. intros row.
+  change (mattvec 0 Qcplus Qcmult k N row) with (qmattvec k N row).
+  rewrite q_dot_comm. rewrite <- (q_adjoint k N v row HN Hv). apply q_dot_comm.
+Qed.
+
+(* a left inverse as a matrix is a left inverse as a map *)
+Lemma q_left_inverse k P C v : wf_mat k C -> length C = k -> length v = k ->
+  qmatmul k P C = qident k -> qmatvec P (qmatvec C v) = v.
+Proof.
+  intros HC HL Hv E. rewrite <- (q_matvec_matmul k P C v HC Hv). rewrite E. apply q_matvec_ident. exact Hv.
+Qed.
+
+Lemma q_vsub_zero_eq u v : length u = length v -> qvsub u v = qvzero (length u) -> u = v.
+Proof.
+  revert v; induction u as [|a u IH]; intros [|c v] H E; vsimp; try discriminate; [reflexivity|].
+  pose proof (f_equal (@hd Qc 0) E) as E0. pose proof (f_equal (@tl Qc) E) as E1. cbn [hd tl] in E0, E1.
+  f_equal; [|apply IH; [lia | exact E1]].
+  replace a with ((a - c) + c) by ring. rewrite E0. ring.
+Qed.
+
+(* a - c = d - e  ->  c + d = a + e *)
+Lemma q_vec_balance a c d e : length a = length c -> length c = length d -> length d = length e ->
+  qvsub a c = qvsub d e -> qvadd c d = qvadd a e.
+Proof.
+  revert c d e; induction a as [|a0 a IH]; intros [|c0 c] [|d0 d] [|e0 e] H1 H2 H3 E; vsimp; try discriminate; [reflexivity|].
+  assert (E0 : a0 - c0 = d0 - e0) by congruence. assert (E1 : qvsub a c = qvsub d e) by congruence.
+  f_equal; [|apply IH; try lia; exact E1].
+  replace (c0 + d0) with (c0 + (d0 - e0) + e0) by ring. rewrite <- E0. ring.
+Qed.
